@@ -6,9 +6,10 @@ import build
 def run(ctx):
     b = build.ensure_explorer("arc_explore", "asan")
     ctx.run_space(b, "integrity", ["seeds=%d" % (1000 if ctx.thorough else 40)], cpu_limit=60)
+    ctx.run_space(b, "integrity", ["seeds=%d" % (1000 if ctx.thorough else 12), "pairs=1"], cpu_limit=300)
     ctx.assumptions += ["ref/ref_header.c: three-valued integrity predicate (checksum over the declared range, common CRC with the field zeroed when exactly one is present, every length field inside the header/above the level minimum/covered by input, level <= 3), bound to the corpus dumps by ./check selftest",
                         "two common-CRC headers: abstain; a first header whose method signature is damaged is lead-in for the SFX scanner, not a header: abstain"]
     return ctx.finish(
         rule="generated well-formed headers (levels 0-3 x file/dir/link x variants with/without common CRC, extended chains, Unix area) x ALL 255 substitutions at every header byte, every truncation, every length field (total, name, compressed, level byte, each extended size) set to 16 boundary values with the checksum kept consistent; "
-             "as first and as second member; followed by nothing / a valid member / garbage.  Oracle: predicate FAIL => no header returned and NULL forever; entries without the required name/path are not returned.  non-trivial = distinct (seed, position/field, context)",
+             "second pass (pairs=1): every PAIR of header positions x 15 x 15 replacement values on 12 (thorough: all) seeds; as first and as second member; followed by nothing / a valid member / garbage.  Oracle: predicate FAIL => no header returned and NULL forever; entries without the required name/path are not returned.  non-trivial = distinct (seed, position/field, context)",
         replay_fn=lambda rep: runner.replay_explorer(rep, quiet=True))
